@@ -20,7 +20,7 @@ import (
 // c04Voucher: a local token shaped like an IBC voucher denom with upper-case hex digits.
 const c04Voucher = "ibc/27394FB092D2ECCD56123C74F36E4C1F926001CEADA9CA97EA622B25F41E5EB2"
 
-var c04RecipientClasses = []string{"plain", "high-bytes-nonzero", "first20-differ", "self-submitter"}
+var c04RecipientClasses = []string{"plain", "high-bytes-nonzero", "first20-differ", "self-submitter", "low20-zero", "all-zero", "module-account"}
 
 func c04Recipient(cls string, i int) []byte {
 	b := ref.Pad32(AcctBytes(i % NAccounts))
@@ -29,6 +29,15 @@ func c04Recipient(cls string, i int) []byte {
 		for j := 0; j < 12; j++ {
 			b[j] = byte(0xd0 + j)
 		}
+	case "low20-zero": // only the 12 padding bytes are set: the recipient is the account with the all-zero address
+		b = make([]byte, 32)
+		for j := 0; j < 12; j++ {
+			b[j] = byte(0x71 + j + i)
+		}
+	case "all-zero":
+		b = make([]byte, 32)
+	case "module-account":
+		b = append([]byte(nil), modulePadded...)
 	case "first20-differ":
 		// bytes [0:20] name a different universe account than bytes [12:32]
 		copy(b[0:12], AcctBytes((i + 3) % NAccounts)[0:12])
@@ -273,6 +282,9 @@ func c08Deposit(e *Engine, mask uint32, withCaller bool, amt *big.Int, v int, de
 	}
 	if mask&(PFrom|P8P9Deps) == 0 && v%5 == 3 {
 		from = LongAcct() // a depositor whose address is 32 bytes long
+	}
+	if mask&(PFrom|P8P9Deps) == 0 && v%7 == 5 {
+		from = strings.ToUpper(from) // the all-upper-case bech32 spelling names the same account
 	}
 	if mask&P8P9Deps != 0 && v%3 == 0 && mask&PFrom == 0 {
 		from = Acct(PoorIx) // cannot pay
